@@ -39,9 +39,11 @@ static void rs_teardown(void)
 	}
 }
 
-enum { RO_LOCK, RO_UNLOCK, RO_LOCK_NESTED, RO_UNLOCK_NESTED, RO_LOCK_FN, RO_UNLOCK_FN, RO_QS, RO_OFFLINE, RO_ONLINE, RO_NR };
+enum { RO_LOCK, RO_UNLOCK, RO_LOCK_NESTED, RO_UNLOCK_NESTED, RO_LOCK_FN, RO_UNLOCK_FN, RO_QS, RO_OFFLINE, RO_ONLINE,
+       RO_QS_FN, RO_OFFLINE_FN, RO_ONLINE_FN, RO_NR };
 static const char *const ro_name[RO_NR] = { "rs_read_lock", "rs_read_unlock", "rs_read_lock_nested", "rs_read_unlock_nested",
-	"rs_read_lock_exported", "rs_read_unlock_exported", "rs_quiescent_state", "rs_thread_offline", "rs_thread_online" };
+	"rs_read_lock_exported", "rs_read_unlock_exported", "rs_quiescent_state", "rs_thread_offline", "rs_thread_online",
+	"rs_quiescent_state_exported", "rs_thread_offline_exported", "rs_thread_online_exported" };
 
 static void rs_op(int o)
 {
@@ -74,6 +76,15 @@ static void rs_op(int o)
 	case RO_ONLINE:
 		STEP_ON(); rcu_thread_online(); STEP_OFF();
 		break;
+	case RO_QS_FN:
+		STEP_ON(); rcu_flavor.read_quiescent_state(); STEP_OFF();
+		break;
+	case RO_OFFLINE_FN:
+		STEP_ON(); rcu_flavor.thread_offline(); STEP_OFF();
+		break;
+	case RO_ONLINE_FN:
+		STEP_ON(); rcu_flavor.thread_online(); STEP_OFF();
+		break;
 #endif
 	default:
 		break;
@@ -83,9 +94,9 @@ static void rs_op(int o)
 	snprintf(res, sizeof(res), "returned, read_ongoing=%d, futex-wake %s", !!ongoing,
 		 st.mark[URCU_VP_WAKE_GP_PRE_SYSCALL] ? "issued" : "not needed");
 #if VP_IS_QSBR
-	if (o == RO_OFFLINE && ongoing)
+	if ((o == RO_OFFLINE || o == RO_OFFLINE_FN) && ongoing)
 		wrong = "thread still online after rcu_thread_offline()";
-	if ((o == RO_ONLINE || o == RO_QS) && !ongoing)
+	if ((o == RO_ONLINE || o == RO_QS || o == RO_ONLINE_FN || o == RO_QS_FN) && !ongoing)
 		wrong = "thread not online";
 #else
 	if ((o == RO_LOCK || o == RO_LOCK_NESTED || o == RO_LOCK_FN || o == RO_UNLOCK_NESTED) && !ongoing)
@@ -109,6 +120,9 @@ static void rs_subject_seq(int inside)
 	rs_op(RO_OFFLINE);
 	rs_op(RO_ONLINE);
 	rs_op(RO_QS);
+	rs_op(RO_OFFLINE_FN);
+	rs_op(RO_ONLINE_FN);
+	rs_op(RO_QS_FN);
 #else
 	if (inside) {
 		rs_op(RO_LOCK_NESTED);
